@@ -1045,6 +1045,15 @@ PSEUDO_INSTRUCTIONS = {
     'fence',
 }
 
+# number of operands of each pseudo-instruction (li takes an expression)
+PSEUDO_INSTRUCTION_ARITY = {
+    'nop': 0, 'ret': 0, 'fence': 0,
+    'j': 1, 'jal': 1, 'jr': 1, 'jalr': 1, 'call': 1, 'tail': 1,
+    'mv': 2, 'not': 2, 'neg': 2, 'seqz': 2, 'snez': 2, 'sltz': 2, 'sgtz': 2,
+    'beqz': 2, 'bnez': 2, 'blez': 2, 'bgez': 2, 'bltz': 2, 'bgtz': 2,
+    'bgt': 3, 'ble': 3, 'bgtu': 3, 'bleu': 3,
+}
+
 # alternate offset syntax applies to insts w/ base reg + offset imm
 BASE_OFFSET_INSTRUCTIONS = {
     'jalr',
@@ -2505,6 +2514,12 @@ def parse_item(line_tokens):
     elif head in PSEUDO_INSTRUCTIONS:
         name, *args = tokens
         name = name.lower()
+        # li takes an expression, the others a fixed number of operands
+        arity = PSEUDO_INSTRUCTION_ARITY.get(name)
+        if arity is not None and len(args) != arity:
+            raise AssemblerError('pseudo-instruction "{}" requires exactly {} args'.format(name, arity), line)
+        if name == 'li' and len(args) < 2:
+            raise AssemblerError('pseudo-instruction "li" requires a register and a value', line)
         return PseudoInstruction(line, name, *args)
     else:
         raise AssemblerError('invalid syntax (expected constant, label, or instruction)', line)
@@ -3409,7 +3424,13 @@ def assemble(path_or_source, *, constants=None, labels=None, compress=False, inc
     lines = [l for l in lines if len(l) > 0]
     tokens = [lex_tokens(l) for l in lines]
     tokens = [t for t in tokens if len(t) > 0]
-    items = [parse_item(t) for t in tokens]
+    items = []
+    for t in tokens:
+        try:
+            items.append(parse_item(t))
+        except (ValueError, IndexError):
+            # operands missing or left over while unpacking the tokens of the line
+            raise AssemblerError('invalid syntax (wrong number of operands)', t.line)
     items = [i for i in items if i is not None]
     for item in items:
         log.info('parsed file {}, line {}: "{}"'.format(os.path.basename(item.line.file), item.line.number, item))
